@@ -572,6 +572,8 @@ func c03(c *Ctx) {
 	}
 	c03EventAddrs(c)
 	c03PeerKeys(c)
+	c04DatagramBuffers(c)
+	pooledObjectsReset(c, "pooled-object-reset", "services", "listener", "server")
 }
 
 func baseOf(addr ssa.Value) ssa.Value {
